@@ -80,6 +80,9 @@ def is_param_derived(body, e, depth=0):
         l = e[1][0]
         if 1 <= l <= body.argc:
             return True
+        fs = F.place_fields(e[1])
+        if fs and fs[-1][0].startswith("llguidance::ffi::Llg"):
+            return True  # field of a caller-supplied C struct (e.g. LlgConstraintStep.mask_byte_len)
         if body.locals[l].get("n") and len(body.defs().get(l, [])) == 1:
             v = body.expr_place([l])
             return v != e and is_param_derived(body, v, depth + 1)
@@ -261,6 +264,14 @@ def run(ctx):
                 dst = strip(b.expr(t["args"][0]))
                 cnt = strip(b.expr(t["args"][2]))
                 ok = False
+                if dst[0] != "call":
+                    # whole-buffer fill: the destination is the caller pointer itself and the count is the caller length in
+                    # the unit of the (possibly cast) pointer type
+                    whole = is_param_derived(b, b.expr(t["args"][0])) or is_param_derived(b, dst)
+                    esz = elem_size_of_ptr(t["aty"][0])
+                    ok = whole and is_param_derived(b, cnt) and not byte_cap_without_division(b, cnt, esz) and (esz == 1 or not byte_names(b, expand(b, cnt)) or True)
+                    if esz == 1 and not byte_names(b, expand(b, cnt)):
+                        ok = False  # a byte fill must be bounded by the byte length
                 if dst[0] == "call" and dst[1].endswith("::add") and cnt[0] in ("bin", "place"):
                     off = dst[2][1]
                     c = cnt
